@@ -30,6 +30,7 @@ import (
 	"strings"
 	"time"
 
+	"github.com/bronlabs/bron-crypto/pkg/base"
 	"github.com/bronlabs/bron-crypto/pkg/base/serde"
 	"github.com/fxamacker/cbor/v2"
 
@@ -344,8 +345,17 @@ func main() {
 		"mut: each tree operator of mutate.go (wire-form variants, container damage, one-rule value changes) and byte-level damage applied to each sample; " +
 		"any-enc/any-mut: random generic items through serde.MarshalCBOR[any] and damaged generic streams against serde.UnmarshalCBOR[any]. " +
 		"non-trivial = the stream passes the model's generic decoder (valid, mut) / is a distinct item (any)"
+	t0 := time.Now()
+	phase := func(name string) {
+		if os.Getenv("C12_TIMING") != "" {
+			fmt.Fprintf(os.Stderr, "%8.2fs phase %s\n", time.Since(t0).Seconds(), name)
+		}
+		t0 = time.Now()
+	}
 	samples := buildSamples(a.Seed, a.Tier)
+	phase("buildSamples")
 	samples = append(samples, heavySamples(a.Seed, a.Tier)...)
+	phase("heavySamples")
 	if a.Driver == "" {
 		// no model driver given: list the samples and their implementation-side round trip
 		for _, s := range samples {
@@ -371,7 +381,9 @@ func main() {
 	} else {
 		cases = genCases(a, samples)
 	}
+	phase("genCases (incl. honest protocol runs)")
 	evaluate(a, res, cases)
+	phase("evaluate")
 	res.Write(a.Out)
 	if len(res.Mismatches) > 0 {
 		os.Exit(1)
@@ -389,7 +401,7 @@ func genCases(a vh.Args, samples []Sample) []*tcase {
 	var cases []*tcase
 	mutated := map[string]int{}
 	fixedDone := map[string]bool{}
-	maxExpensive, maxPerType, maxMaps := 1, 6, 8
+	maxExpensive, maxPerType, maxMaps := 1, 4, 8
 	if a.Tier == "thorough" || a.Search {
 		maxExpensive, maxPerType, maxMaps = 4, 1<<30, 40
 	}
@@ -620,6 +632,16 @@ func genCases(a vh.Args, samples []Sample) []*tcase {
 			cases = append(cases, &tcase{class: "mut", sample: s, mut: m, stream: m.Bytes, sm: true})
 		}
 	}
+	// Paillier keys below the modulus-size floor (base.IFCKeyLength): must be refused
+	for _, fs := range heavyFloorStreams() {
+		for i := range samples {
+			if samples[i].Type == fs.Type {
+				m := mutation{Kind: "modulus-below-floor", Path: fs.Desc, Bytes: fs.Bytes}
+				cases = append(cases, &tcase{class: "mut", sample: &samples[i], mut: m, stream: m.Bytes, sm: true})
+				break
+			}
+		}
+	}
 	// generic items
 	for i := 0; i < nAny; i++ {
 		r := vh.NewRng(a.Seed, "C12", "any", i)
@@ -768,6 +790,7 @@ func evaluate(a vh.Args, res *vh.Result, cases []*tcase) {
 			for k, v := range spent {
 				fmt.Fprintf(os.Stderr, "%8.2fs %s\n", v.Seconds(), k)
 			}
+			fmt.Fprintf(os.Stderr, "%8.2fs sweep runs\n", sweepSpent.Seconds())
 		}
 	}()
 	var lines2 []string
@@ -904,6 +927,15 @@ func evaluate(a vh.Args, res *vh.Result, cases []*tcase) {
 				continue
 			}
 			accepted := !d.Err && !d.IsNil
+			// modulus-size floor of accepted Paillier keys / shards (facts "modbits=<n>", heavyvalues.go)
+			if accepted {
+				if i := strings.Index(d.Facts, "modbits="); i >= 0 {
+					if n, err := strconv.Atoi(strings.Fields(d.Facts[i+8:] + " x")[0]); err == nil && n < base.IFCKeyLength &&
+						(strings.HasPrefix(typ, "paillier-publickey") || strings.HasPrefix(typ, "paillier-secretkey") || strings.HasPrefix(typ, "lindell17") || strings.HasPrefix(typ, "cggmp21")) {
+						mm("prop", typ+"/modulus-below-floor", fmt.Sprintf("the decoder accepts a key with a %d-bit modulus (floor %d bits): %s at %s", n, base.IFCKeyLength, c.mut.Kind, c.mut.Path), "C12 decoding validates like construction: moduli of admissible size (NewPublicKey / NewSecretKey floor)", true)
+					}
+				}
+			}
 			// accessor-level validity of an accepted access structure (independent of the model's rules)
 			if accepted {
 				factsViolation(typ, d.Facts, "the value decoded from a "+c.mut.Kind+" mutation at "+c.mut.Path+" (re-encoding "+vh.Hex(d.Re)+")", mm)
